@@ -70,13 +70,13 @@ def _tlc_cases(tier: str, seed: int, v: core.Verdict):
     cov_c = dict(ex_c, MaxLen=2, MinEmit=99)
     to = 3000 if tier == "quick" else 7200
     jobs = [
-        ("cov", lambda: core.run_tlc(SPEC / "Statements.tla", _cfg(d / "cov.cfg", cov_c, 0), workers=2, timeout=to, coverage=True)),
+        ("cov", lambda: core.run_tlc(SPEC / "Statements.tla", _cfg(d / "cov.cfg", cov_c, 0), workers=2, timeout=to, coverage=True, heap="2g")),
         # (b) the exhaustive design-level run (no coverage instrumentation: twice as fast)
-        ("ex", lambda: core.run_tlc(SPEC / "Statements.tla", _cfg(d / "ex.cfg", ex_c, seed), workers=8, timeout=to, coverage=False)),
+        ("ex", lambda: core.run_tlc(SPEC / "Statements.tla", _cfg(d / "ex.cfg", ex_c, seed), workers=8, timeout=to, coverage=False, heap="4g")),
         # (c) longer programs over four symbols: exhaustive search of a random (VERIF_SEED) subtree
-        ("sim", lambda: core.run_tlc(SPEC / "Statements.tla", _cfg(d / "sim.cfg", sim_c, seed), workers=6, timeout=to, coverage=False)),
+        ("sim", lambda: core.run_tlc(SPEC / "Statements.tla", _cfg(d / "sim.cfg", sim_c, seed), workers=6, timeout=to, coverage=False, heap="4g")),
         # (d) the def-use chain family (long dependency chains, readers before / between / after the edited statement)
-        ("chain", lambda: core.run_tlc(SPEC / "Statements.tla", _cfg(d / "chain.cfg", ch_c, seed), workers=4, timeout=to, coverage=False)),
+        ("chain", lambda: core.run_tlc(SPEC / "Statements.tla", _cfg(d / "chain.cfg", ch_c, seed), workers=4, timeout=to, coverage=False, heap="4g")),
     ]
     ths = [threading.Thread(target=run, args=j) for j in jobs]
     for t in ths:
